@@ -261,9 +261,9 @@ int rtosc_arg_vals_cmp_single(const rtosc_arg_val_t* _lhs,
             {
                 // both equal until here
                 // the string that ends here is lexicographically smaller
-                rval = (lbs > rbs)
-                       ? _lhs->val.b.data[minlen]
-                       : -_rhs->val.b.data[minlen];
+                // (the next byte of the longer one may be 0, so its value
+                //  can not be used as the result)
+                rval = (lbs > rbs) ? 1 : -1;
             }
 
             break;
